@@ -209,6 +209,9 @@ def main(pid, tier):
                 warnings.simplefilter('ignore')
                 res = ex(ds)
                 res2 = ex(ds2)
+                # the same dataset through an extractor of the same configuration that has seen
+                # nothing before
+                resf = configs(r)[i % len(cfgs)][1](copy.deepcopy(ds))
             status = 'ok'
         except ValueError as e:
             res, status = None, 'ValueError'
@@ -221,6 +224,10 @@ def main(pid, tier):
             fails = []
             if repr(res) != repr(res2):
                 fails.append(('determinism', 'two extractions of equal datasets differ'))
+            if repr(res) != repr(resf):
+                diff = [k for k in set(res) | set(resf) if repr(res.get(k)) != repr(resf.get(k))]
+                fails.append(('history', 'an extractor that has processed other datasets gives another result than a '
+                              'fresh extractor of the same configuration (keys %s)' % sorted(diff)[:4]))
             if pix_before is not None and bytes(ds.PixelData) != pix_before:
                 fails.append(('pixels', 'extraction altered the pixel data'))
             for k, v in res.items():
